@@ -8,6 +8,7 @@ computation onto one, so that the rules - written against that one spelling - gi
   P2  no else after exit   `if c: ...; return/raise/break/continue  else: REST`  ->  `if c: ...exit`  followed by REST
   P3  effect loops         an expression statement that is a comprehension evaluated for its side effects becomes a for loop
   P3b accumulation loops  `L = []; for x in xs: L.append(e)` becomes `L = [e for x in xs]`
+  P3c local functions     a nested `def f(x): return e` becomes `f = lambda x: e`
   P4  new helpers          a function / method that the reference snapshot does not know (a freshly extracted private helper) is
                            inlined at its call sites (arguments bound once, locals renamed) and removed
   P5  new temporaries      a local the reference does not know, bound once and read once in the next statement, is written
@@ -67,6 +68,25 @@ def _blocks(node):
         yield "handler", h.body
 
 
+def _extend_comp_to_loop(st):
+    """`L.extend([e for x in xs])` -> `for x in xs: L.append(e)`."""
+    if not (isinstance(st, ast.Expr) and isinstance(st.value, ast.Call) and isinstance(st.value.func, ast.Attribute)
+            and st.value.func.attr == "extend" and len(st.value.args) == 1 and not st.value.keywords
+            and isinstance(st.value.args[0], (ast.ListComp, ast.GeneratorExp))):
+        return None
+    comp = st.value.args[0]
+    if len(comp.generators) != 1 or comp.generators[0].ifs or comp.generators[0].is_async:
+        return None
+    g = comp.generators[0]
+    tgt = copy.deepcopy(g.target)
+    for x in ast.walk(tgt):
+        if isinstance(x, ast.Name):
+            x.ctx = ast.Store()
+    app = ast.Expr(value=ast.Call(func=ast.Attribute(value=st.value.func.value, attr="append", ctx=ast.Load()), args=[comp.elt], keywords=[]))
+    ast.copy_location(app, st)
+    return ast.copy_location(ast.For(target=tgt, iter=g.iter, body=[app], orelse=[], type_comment=None), st)
+
+
 def _effect_comp_to_loop(st):
     """`[f(x) for x in xs if c]` as a statement -> nested for / if statements (None when st is not of that form)."""
     if not (isinstance(st, ast.Expr) and isinstance(st.value, (ast.ListComp, ast.GeneratorExp, ast.SetComp))):
@@ -88,15 +108,33 @@ def _effect_comp_to_loop(st):
     return inner[0]
 
 
-def _restructure(body):
+def _local_def_to_lambda(st):
+    """A nested `def f(x): return e` (no decorators, defaults or annotations that matter) is the binding `f = lambda x: e`."""
+    if not isinstance(st, ast.FunctionDef) or st.decorator_list or st.args.defaults or st.args.kw_defaults or st.args.vararg \
+            or st.args.kwarg or st.args.kwonlyargs or st.args.posonlyargs:
+        return None
+    body = [s for s in st.body if not (isinstance(s, ast.Expr) and isinstance(s.value, ast.Constant) and isinstance(s.value.value, str))]
+    if len(body) != 1 or not isinstance(body[0], ast.Return) or body[0].value is None:
+        return None
+    args = ast.arguments(posonlyargs=[], args=[ast.arg(arg=a.arg) for a in st.args.args], vararg=None, kwonlyargs=[], kw_defaults=[],
+                         kwarg=None, defaults=[])
+    lam = ast.Lambda(args=args, body=body[0].value)
+    return ast.copy_location(ast.Assign(targets=[ast.Name(id=st.name, ctx=ast.Store())], value=lam), st)
+
+
+def _restructure(body, nested=False):
     out = []
     for st in body:
-        loop = _effect_comp_to_loop(st)
+        loop = _effect_comp_to_loop(st) or _extend_comp_to_loop(st)
         if loop is not None:
             st = loop
+        if nested:
+            lam = _local_def_to_lambda(st)
+            if lam is not None:
+                st = lam
         if not isinstance(st, (ast.FunctionDef, ast.AsyncFunctionDef, ast.ClassDef)):
             for name, b in list(_blocks(st)):
-                nb = _restructure(b)
+                nb = _restructure(b, nested)
                 if name == "handler":
                     for h in st.handlers:
                         if h.body is b:
@@ -104,7 +142,7 @@ def _restructure(body):
                 else:
                     setattr(st, name, nb)
         else:
-            st.body = _restructure(st.body)
+            st.body = _restructure(st.body, isinstance(st, (ast.FunctionDef, ast.AsyncFunctionDef)))
         if isinstance(st, ast.If) and st.orelse and st.body and isinstance(st.body[-1], TERMINATORS):
             rest = st.orelse
             st.orelse = []
@@ -112,6 +150,13 @@ def _restructure(body):
             out.extend(rest)                 # already restructured
             continue
         out.append(st)
+    # a two-way choice of returned value in negative polarity:  `if not c: return A` `return B`  ->  `if c: return B` `return A`
+    if len(out) >= 2 and isinstance(out[-1], ast.Return) and isinstance(out[-2], ast.If) and not out[-2].orelse \
+            and len(out[-2].body) == 1 and isinstance(out[-2].body[0], ast.Return):
+        flipped, t = _flip(out[-2].test)
+        if flipped:
+            out[-2].test = t
+            out[-2].body[0], out[-1] = out[-1], out[-2].body[0]
     return out
 
 
